@@ -13,6 +13,7 @@
 // Each case runs in a forked child; every API call is bracketed by a 2 s CPU-time watchdog: if it fires the child
 // reports HANG for that call and the case ends there.
 #include "vcommon.h"
+#include "valloc.h"
 
 #include <zix/allocator.h>
 #include <zix/hash.h>
@@ -206,75 +207,45 @@ static bool match_func(const void* key, const void* user_data)
 }
 
 // ---------------------------------------------------------------- scripted allocator
+// harness/valloc.h does the tracking (header in front of every block: serial number, plain/aligned
+// magic, double-free / foreign-pointer / mismatched-entry detection, event trace); this wrapper
+// only decides from the script which requests are refused.  A refused request consumes a serial.
 typedef struct {
-  ZixAllocator base;
-  const char*  script;
-  size_t       pos;
-  bool         armed;
-  long         live;
+  Valloc      v; // must be first (its ZixAllocator is first)
+  const char* script;
+  size_t      pos;
+  bool        armed;
 } ScriptAlloc;
 
-static bool script_ok(ScriptAlloc* a)
+static bool script_refuses(ScriptAlloc* a)
 {
-  if (!a->armed || !a->script || !a->script[a->pos]) {
+  if (a->armed && a->script && a->script[a->pos] && a->script[a->pos++] == '0') {
+    ++a->v.requests; // the refused request has a serial number, too
+    ++a->v.failed;
     return true;
   }
-  return a->script[a->pos++] != '0';
+  return false;
 }
 
 static void* sa_malloc(ZixAllocator* al, size_t size)
 {
-  ScriptAlloc* a = (ScriptAlloc*)al;
-  if (!script_ok(a)) {
-    return NULL;
-  }
-  ++a->live;
-  return malloc(size);
+  return script_refuses((ScriptAlloc*)al) ? NULL : valloc_malloc(al, size);
 }
 
 static void* sa_calloc(ZixAllocator* al, size_t n, size_t size)
 {
-  ScriptAlloc* a = (ScriptAlloc*)al;
-  if (!script_ok(a)) {
-    return NULL;
-  }
-  ++a->live;
-  return calloc(n, size);
+  return script_refuses((ScriptAlloc*)al) ? NULL : valloc_calloc(al, n, size);
 }
 
 static void* sa_realloc(ZixAllocator* al, void* p, size_t size)
 {
-  ScriptAlloc* a = (ScriptAlloc*)al;
-  if (!script_ok(a)) {
-    return NULL;
-  }
-  if (!p) {
-    ++a->live;
-  }
-  return realloc(p, size);
-}
-
-static void sa_free(ZixAllocator* al, void* p)
-{
-  ScriptAlloc* a = (ScriptAlloc*)al;
-  if (p) {
-    --a->live;
-  }
-  free(p);
+  return script_refuses((ScriptAlloc*)al) ? NULL : valloc_realloc(al, p, size);
 }
 
 static void* sa_aligned_alloc(ZixAllocator* al, size_t alignment, size_t size)
 {
-  ScriptAlloc* a = (ScriptAlloc*)al;
-  if (!script_ok(a)) {
-    return NULL;
-  }
-  ++a->live;
-  void* p = NULL;
-  return posix_memalign(&p, alignment, size) ? NULL : p;
+  return script_refuses((ScriptAlloc*)al) ? NULL : valloc_aligned_alloc(al, alignment, size);
 }
-
-static void sa_aligned_free(ZixAllocator* al, void* p) { sa_free(al, p); }
 
 // ---------------------------------------------------------------- watchdog
 static unsigned wd_seconds = 2;
@@ -413,6 +384,30 @@ static void begin_call(char op, int rec_id, bool has_key)
   lg[0] = 0;
 }
 
+// the allocator trace of the whole case goes to the structural part: mem=A0:p:64,A1:p:64,...,F1:p,F0:p
+static ScriptAlloc* cur_sa;
+static char**       cur_trace;
+
+static void finish_mem(void)
+{
+  fflush(cur_sa->v.trace);
+  if (str_n) {
+    APPEND(str, str_n, " ");
+  }
+  APPEND(str, str_n, "mem=");
+  const char* t = *cur_trace;
+  size_t      n = t ? strlen(t) : 0U;
+  while (n && t[n - 1] == ' ') {
+    --n;
+  }
+  if (!n) {
+    APPEND(str, str_n, "-");
+  }
+  for (size_t i = 0; i < n; ++i) {
+    APPEND(str, str_n, "%c", t[i] == ' ' ? ',' : t[i]);
+  }
+}
+
 // ---------------------------------------------------------------- one case (in the child)
 static void run_case(char** tok, int n)
 {
@@ -431,8 +426,23 @@ static void run_case(char** tok, int n)
     emit_line("bad-case");
     return;
   }
-  ScriptAlloc sa = {{sa_malloc, sa_calloc, sa_realloc, sa_free, sa_aligned_alloc, sa_aligned_free},
-                    strcmp(tok[2], "-") ? tok[2] : NULL, 0U, false, 0};
+  // fail script: "-" | bits (answers to the requests made after zix_hash_new) | "n" bits (answers from the
+  // very first request on, so that zix_hash_new itself can be refused its first or second request)
+  static ScriptAlloc sa;
+  valloc_init(&sa.v, VALLOC_NONE, 0U);
+  sa.v.base.malloc        = sa_malloc;
+  sa.v.base.calloc        = sa_calloc;
+  sa.v.base.realloc       = sa_realloc;
+  sa.v.base.aligned_alloc = sa_aligned_alloc;
+  const bool from_new     = tok[2][0] == 'n';
+  sa.script               = !strcmp(tok[2], "-") ? NULL : tok[2] + (from_new ? 1 : 0);
+  sa.pos                  = 0U;
+  sa.armed                = from_new;
+  char*  mem_trace = NULL;
+  size_t mem_len   = 0U;
+  sa.v.trace       = open_memstream(&mem_trace, &mem_len);
+  cur_sa           = &sa;
+  cur_trace        = &mem_trace;
 
   struct sigaction act;
   memset(&act, 0, sizeof(act));
@@ -440,9 +450,10 @@ static void run_case(char** tok, int n)
   sigaction(SIGALRM, &act, NULL);
   sigaction(SIGVTALRM, &act, NULL);
 
-  ZixHash* hash = zix_hash_new(&sa.base, key_func, hash_func, equal_func);
+  ZixHash* hash = zix_hash_new(&sa.v.base, key_func, hash_func, equal_func);
   if (!hash) {
-    emit_line("new-failed");
+    finish_mem();
+    emit_line(sa.v.outstanding ? "new-failed LEAK" : sa.v.errors ? "new-failed MEMERR" : "new-failed");
     return;
   }
   sa.armed = true;
@@ -646,14 +657,15 @@ static void run_case(char** tok, int n)
 
   sa.armed = false;
   zix_hash_free(hash);
+  finish_mem();
   for (int i = 0; i < MAX_REC; ++i) {
     if (recs[i].used) {
       free(recs[i].mem);
     }
   }
   char tail[64];
-  snprintf(tail, sizeof(tail), "%sroles=%s%s", obs_n ? " " : "", roles_bad ? "BAD" : "ok",
-           sa.live ? " LEAK" : "");
+  snprintf(tail, sizeof(tail), "%sroles=%s%s%s", obs_n ? " " : "", roles_bad ? "BAD" : "ok",
+           sa.v.outstanding ? " LEAK" : "", sa.v.errors ? " MEMERR" : "");
   emit_line(tail);
 }
 
